@@ -117,7 +117,7 @@ _C09_CFG = [  # name, lengths, tier, numProp (None = arbitrary)
 def _c09(name, lens, tier, numprop=3, entry='h_ingest64', what='MeshGL64'):
     return dict(name=name, harness='c09_ingest.cpp', entry=entry, defs=dict({'VF_LENS': ','.join(map(str, lens))}, **({'VF_NUMPROP': numprop} if numprop is not None else {})),
                 cuts=_INGEST_CUTS, redirect=_INGEST_REDIR, models=['rbtree.h'],
-                unwind={'default': 13 if lens[9] > 16 else 5, 'h_ingest|sym|fixedvec': 49, 'Rb_tree': 3, 'find_if': 13}, recursion={'default': 2}, backends=['minisat'], timeout=2400 if name.endswith('full') else 1500, object_bits=12, mem_gb=30 if name.endswith('full') else 24, cbmc=(['--slice-formula'] if name.endswith('full') else []),
+                unwind={'default': 13 if lens[9] > 16 else 5, 'h_ingest|sym|fixedvec': 49, 'Rb_tree': 3, 'find_if': 13}, recursion={'default': 2}, backends=['minisat'], timeout=2400 if name.endswith('full') else 1500, object_bits=12, mem_gb=30, cbmc=['--slice-formula'],
                 cdefs=['VF_ALLOC_CLASSES=VF_C(4) VF_C(8) VF_C(12) VF_C(16) VF_C(24) VF_C(32) VF_C(48) VF_C(64) VF_C(96) VF_C(192) VF_C(384)'],
                 tiers=['quick', 'thorough'] if tier == 'q' else (['experimental'] if tier == 'x' else ['thorough']),
                 claim='Impl::Impl(%s) up to the call of CreateHalfedges, numProp %s, vector lengths %s (vertProperties, triVerts, mergeFromVert, mergeToVert, runIndex, runOriginalID, runTransform, runFlags, faceID, halfedgeTangent): memory safe, no div-by-zero / overflow / throw for every tolerance and every content; early returns are empty with an error' % (what, ('= %s' % numprop) if numprop is not None else 'ARBITRARY', lens),
